@@ -10,14 +10,15 @@ LEVEL = ('TABLE rules with mathematical oracles: the affine view y = a·x+b maps
          ' a (all 8 functions × 2 signs, siblings dual to each other); map/invert/scaled/offset '
          'compute a·v+b, ⌈(v−b)/a⌉ / ⌊(v−b)/a⌋, (a·k, b·k), b+k; div_ceil/div_floor are decided by '
          'abstract evaluation over all 14 sign/divisibility cases; the value tests guard with a '
-         'divisibility test of v−b by a; Literal delegates to the same-named method; posting '
-         'propagates before returning Ok; bounds only tighten; bounds are only readable at decision '
-         'level 0 (typestate, shared with C10). Also runs the LIFE-CYCLE BUNDLE (…L<n>): the typestate'
-         ' rules over arbitrary API sequences of C10 (usable root state after every call, inert '
-         'posting in inconsistent states, entry guards, stored-solution extent). A negative-scale view'
-         ' exchanges exactly LowerBound and UpperBound when it registers, decided over all event sets '
-         '(V9 EVENT-FLIP TABLE). Also runs the KERNEL BUNDLE (VK<n>). Does not decide that root '
-         'propagation is sound')
+         'divisibility test of v−b by a (seen through private helpers of the view; a scale = ±1 fast '
+         'path counts as guarded when the value it hands on normalises to (v−b)/a); Literal delegates '
+         'to the same-named method; posting propagates before returning Ok; bounds only tighten; '
+         'bounds are only readable at decision level 0 (typestate, shared with C10). Also runs the '
+         'LIFE-CYCLE BUNDLE (…L<n>): the typestate rules over arbitrary API sequences of C10 (usable '
+         'root state after every call, inert posting in inconsistent states, entry guards, stored-'
+         'solution extent). A negative-scale view exchanges exactly LowerBound and UpperBound when it '
+         'registers, decided over all event sets (V9 EVENT-FLIP TABLE). Also runs the KERNEL BUNDLE '
+         '(VK<n>). Does not decide that root propagation is sound')
 TECHNIQUE = "static analysis: path-wise symbolic table recovery + abstract sign evaluation over rustc MIR"
 
 VIEW = "AffineView"
@@ -442,11 +443,71 @@ def is_divisibility_test(cond, vp):
     return ok, pol
 
 
+def _unit_scale_fact(cond, val, others):
+    """c ∈ {1, −1} if the path fact says `self.scale == c` holds"""
+    c = cond
+    pol = True
+    while c.k == "unop" and c.a == "Not":
+        c = c.b
+        pol = not pol
+    if c.k != "binop" or c.a not in ("Eq", "Ne"):
+        return None
+    if c.a == "Ne":
+        pol = not pol
+    l, r = peel(c.b, calls=None), peel(c.c, calls=None)
+    if l.k == "const":
+        l, r = r, l
+    if not (r.k == "const" and r.a in (1, -1) and field_of_self(l, "scale")):
+        return None
+    truth = bool(val) if val is not None else (not bool(others[0]) if others else None)
+    return r.a if truth is not None and truth == pol else None
+
+
+def _lin(e, vp, c):
+    """e as a·value + b·offset + k with self.scale = c, or None if e is not linear in those"""
+    from fractions import Fraction as Fr
+    e = peel(e, calls=None)
+    if e.k == "arg" and e.a == vp:
+        return (Fr(1), Fr(0), Fr(0))
+    if field_of_self(e, "offset"):
+        return (Fr(0), Fr(1), Fr(0))
+    if field_of_self(e, "scale"):
+        return (Fr(0), Fr(0), Fr(c))
+    if e.k == "const" and isinstance(e.a, int):
+        return (Fr(0), Fr(0), Fr(e.a))
+    if e.k == "unop" and e.a == "Neg":
+        x = _lin(e.b, vp, c)
+        return None if x is None else tuple(-t for t in x)
+    if e.k == "binop":
+        op = e.a.replace("WithOverflow", "").replace("Unchecked", "")
+        x, y = _lin(e.b, vp, c), _lin(e.c, vp, c)
+        if x is None or y is None:
+            return None
+        if op == "Add":
+            return tuple(p + q for p, q in zip(x, y))
+        if op == "Sub":
+            return tuple(p - q for p, q in zip(x, y))
+        if op == "Mul":
+            if x[0] == 0 and x[1] == 0:
+                return tuple(x[2] * q for q in y)
+            if y[0] == 0 and y[1] == 0:
+                return tuple(y[2] * p for p in x)
+            return None
+        if op == "Div" and y[0] == 0 and y[1] == 0 and y[2] in (1, -1):
+            return tuple(p / y[2] for p in x)
+    if e.k == "proj" and e.b and e.b[-1].get("index") == 0 and len(e.b) == 1:
+        return _lin(e.a, vp, c)          # the value half of a checked-arithmetic pair
+    return None
+
+
 def v1_divis(led, rid, ctx):
+    from ..inline import view as _view
     lib = ctx.lib
     inline = make_inliner(lib)
     for name, (trait, inner_op, other) in DIVIS_TABLE.items():
-        f = view_method(lib, name, trait)
+        f = _view(lib, view_method(lib, name, trait), want=lambda g: (g.self_adt or "").endswith("::" + VIEW)
+                  and g.kind != "Closure" and g.vis != "pub" and g.impl_trait is None
+                  and g.name not in ("invert", "map"))
         vp = None
         for a in f.args[1:]:
             if a["ty"] == "i32" or "Value" in a["ty"]:
@@ -460,6 +521,29 @@ def v1_divis(led, rid, ctx):
                 if rec:
                     truth = bool(val) if val is not None else (not bool(others[0]) if others else None)
                     verdict = (truth == pol)
+            unit = None
+            if verdict is None:
+                for cond, val, others in p.conds:
+                    u = _unit_scale_fact(cond, val, others)
+                    if u is not None:
+                        unit = u
+                if unit is not None:
+                    # scale = ±1: every value has a pre-image; the fast path must hand the inner
+                    # variable (value − offset) / scale, in whatever arithmetic spelling
+                    n_div += 1
+                    inner = [(c, a, r) for (c, a, r) in p.calls if c.name == inner_op and c.trait]
+                    ok = len(inner) == 1 and p.ret is not None and p.ret.k == "call" and p.ret.a is inner[0][0]
+                    if ok:
+                        from fractions import Fraction as Fr
+                        want = (Fr(1, unit), Fr(-1, unit), Fr(0))
+                        ok = any(_lin(x, vp, unit) == want or
+                                 (peel(x, calls=None).k == "call" and peel(x, calls=None).a.name == "invert")
+                                 for x in inner[0][1][1:])
+                    led.check(ok, rid, "%s:unit-scale(%d)" % (name, unit), f.span,
+                              "inner.%s((value − offset)/scale)" % inner_op,
+                              "on the scale == %d fast path AffineView::%s must return inner.%s of "
+                              "(value − offset)/scale" % (unit, name, inner_op))
+                    continue
             if verdict is None:
                 led.bad(rid, "%s:guard" % name, f.span,
                         "AffineView::%s is not guarded by a divisibility test of (value − offset) by "
